@@ -116,6 +116,7 @@ class Env:
         self.partials = partials     # name -> AST list
         self.escape = escape
         self.strict = strict
+        self.inlines = {}            # name -> AST list, bound by {{#*inline}} from its definition onward
 
 
 def json_eq(a, b):
@@ -183,6 +184,9 @@ def eval_arg(arg, scopes, env):
             return MISSING
         return scopes[k].locals.get(arg["name"], MISSING)
     if a == "param":
+        if arg.get("ups"):
+            # '../' in front of a block parameter name: whether the prefix or the shadowing wins is not stated
+            raise Undefined("../ before a block param")
         for s in scopes:
             if arg["name"] in s.params:
                 return descend(s.params[arg["name"]], arg["segs"])
@@ -306,9 +310,14 @@ def render_node(n, scopes, env, pbstack):
             if kind == "with" or (kind == "each" and not isinstance(v, (list, dict))):
                 raise SpecError(["MissingVariable"])
         return ""
+    if t == "inline":
+        # takes effect from its definition onward, for the rest of the render; a later definition of the name replaces it
+        env.inlines[n["name"]] = n["body"]
+        return ""
     if t == "partial":
         name = n["name"]
-        body = env.partials.get(name)
+        body = env.inlines[name] if name in env.inlines else env.partials.get(name)
+        exists = body is not None
         if body is None:
             if n.get("block") is not None:
                 body = n["block"]
@@ -334,7 +343,7 @@ def render_node(n, scopes, env, pbstack):
                 m[k] = None if v is MISSING else v
             base = m
         new_pb = pbstack
-        if n.get("block") is not None and env.partials.get(name) is not None:
+        if n.get("block") is not None and exists:
             new_pb = ((n["block"], scopes),) + tuple(pbstack)
         elif n.get("block") is not None:
             # the default body of a missing partial: what @partial-block denotes INSIDE it is not stated by the property
@@ -376,7 +385,7 @@ def print_arg(rng, arg, in_param=False):
         parts = [arg["name"]] + [spell_seg(rng, s) for s in arg["segs"]]
         if any(p is None for p in parts):
             return None
-        return parts[0] + "".join(rng.pick([".", "/"]) + p for p in parts[1:])
+        return "../" * arg.get("ups", 0) + parts[0] + "".join(rng.pick([".", "/"]) + p for p in parts[1:])
     parts = [spell_seg(rng, s) for s in arg["segs"]]
     if any(p is None for p in parts):
         return None
@@ -510,4 +519,9 @@ def print_node(rng, n):
         return "{{> " + n["name"] + args + "}}"
     if t == "pblock":
         return "{{> @partial-block}}"
+    if t == "inline":
+        b = print_nodes(rng, n["body"])
+        if b is None:
+            return None
+        return "{{#*inline \"" + n["name"] + "\"}}" + b + "{{/inline}}"
     return None
